@@ -340,6 +340,7 @@ type fsRun struct {
 	Args     []string
 	Allowed  map[string]string // relative path -> source file it is the output of
 	Default  bool              // every output at its default path
+	AbsOut   bool              // ROOT/ in the arguments stands for the absolute path of the tree
 	Exit     int
 	Stderr   string
 	Changed  []string
@@ -357,6 +358,14 @@ func (r *fsRun) exec(cffBin, root, repo string) {
 		writeFile(filepath.Join(root, "fsq", n), c)
 	}
 	os.MkdirAll(filepath.Join(root, "outdir"), 0o755)
+	for p := range r.Allowed {
+		os.MkdirAll(filepath.Join(root, filepath.Dir(p)), 0o755)
+	}
+	if r.AbsOut {
+		for i, a := range r.Args {
+			r.Args[i] = strings.Replace(a, "ROOT/", root+"/", 1)
+		}
+	}
 	tmp := root + "-tmp"
 	os.RemoveAll(tmp)
 	os.MkdirAll(tmp, 0o755)
@@ -423,6 +432,25 @@ func fileSetRuns(modes []string) []*fsRun {
 		}
 		all.Allowed[filepath.Join("fsq", "a_gen.go")] = "fsq/a.go"
 		runs = append(runs, all)
+		// spellings of an explicit output path: the path is taken as given, whatever characters it contains
+		spell := []string{"o,v2/a_gen.go", "with space/a gen.go", "k=v/a_gen.go", "a=b=c.go", "\u00fcn\u00ef/a_gen.go", ".hidden/a_gen.go", "-dash/-a_gen.go", "a,b,c.go", "deep/er/still/a_gen.go", "a_gen.go.txt"}
+		for si, sp := range spell {
+			out := filepath.Join("outdir", sp)
+			r := &fsRun{Mode: mode, Allowed: map[string]string{out: "a.go"}, Desc: "-file a.go=" + out}
+			r.Args = append(cffArgs(mode), "-file=a.go="+out, "./fsp")
+			runs = append(runs, r)
+			// two files, both with explicit outputs of that spelling
+			o2 := filepath.Join("outdir", "second", spell[(si+1)%len(spell)])
+			r2 := &fsRun{Mode: mode, Allowed: map[string]string{out: "a.go", o2: "xa.go"}, Desc: "-file a.go=" + out + " xa.go=" + o2}
+			r2.Args = append(cffArgs(mode), "-file=a.go="+out, "-file=xa.go="+o2, "./fsp")
+			runs = append(runs, r2)
+		}
+		{
+			// an absolute output path
+			r := &fsRun{Mode: mode, Allowed: map[string]string{filepath.Join("outdir", "abs", "a_gen.go"): "a.go"}, Desc: "-file a.go=<absolute path>", AbsOut: true}
+			r.Args = append(cffArgs(mode), "-file=a.go=ROOT/outdir/abs/a_gen.go", "./fsp")
+			runs = append(runs, r)
+		}
 		for m := 1; m < 1<<len(names); m++ {
 			var sub []string
 			for i, n := range names {
